@@ -27,6 +27,11 @@ def contact_txt(src, port):
 def check(sc, log, tr, min_cap=30):
     if sc.node["ro"]:
         return []
+    import comp
+    consts = comp.read_consts()
+    max_len = consts.get("handler_max_datagram_len", 1500)
+    overhead = consts.get("handler_reply_overhead_len", 700)
+    vlen = {False: consts.get("handler_value_len_v4", 8), True: consts.get("handler_value_len_v6", 21)}
     rm = render_map(log)
     issued = {}      # (v6, ip) -> {token_hex: time of last issue}
     stored = {}      # ih -> {contact: time of last ack}
@@ -66,7 +71,10 @@ def check(sc, log, tr, min_cap=30):
             if len(set(vals)) != len(vals):
                 out.append({"kind": "get_peers reply lists a contact twice", "time": t, "values": vals[:10]})
             missing = [c for c in alive if c not in vals]
-            if missing and len(vals) < min_cap:
+            # the cap of the reply: what fits beside the fixed overhead and the echoed transaction id (read from the source's
+            # constants; it shrinks to 0 for very long ids)
+            cap = max(0, max_len - overhead - len(req["t"]) // 2) // vlen[src.v6]
+            if missing and len(vals) < min(cap, min_cap):
                 out.append({"kind": "get_peers reply omits a live acknowledged contact although the reply is not full", "time": t,
                             "missing": missing[:5], "values": len(vals), "info_hash": req["ih"]})
         else:
